@@ -54,7 +54,7 @@ type c15Site struct {
 	TLS    *c15TLS `json:"tls,omitempty"`
 }
 type c15In struct {
-	Kind  string    `json:"kind"` // pipe | redir | redire2e | class | ip | net | split
+	Kind  string    `json:"kind"` // pipe | act | redir | redire2e | class | ip | net | split
 	Sites []c15Site `json:"sites,omitempty"`
 	// redir
 	RPort  string `json:"rport,omitempty"`
@@ -116,7 +116,10 @@ func c15SiteKey(s c15Site) string {
 	return k + s.Path
 }
 
-func c15Block(s c15Site) string {
+func c15Block(s c15Site) string { return c15BlockX(s, "") }
+
+// c15BlockX: the site's server block; extra = additional directive lines (the act cases' probe)
+func c15BlockX(s c15Site, extra string) string {
 	var sb strings.Builder
 	sb.WriteString(c15SiteKey(s) + " {\n")
 	if s.Bind != "" {
@@ -145,6 +148,7 @@ func c15Block(s c15Site) string {
 		}
 		sb.WriteString(line + "\n")
 	}
+	sb.WriteString(extra)
 	sb.WriteString("}\n")
 	return sb.String()
 }
@@ -249,7 +253,48 @@ func c15PipeSig(sites []c15Site, obsA []c15Obs) string {
 	return "pipe"
 }
 
-func c15RunPipe(in *c15In) Result {
+// the act cases' probe directive: last in casket's directive order, so its setup runs after the tls
+// parsing callback (the REAL activateHTTPS); it records the context and the site list at that point
+// and registers a startup callback that aborts casket.Start after MakeServers, before any listener
+// is opened.
+var c15ProbeOnce sync.Once
+var c15ProbeCtx casket.Context
+var c15ProbeObs []c15Obs
+var c15ProbeDirect string
+var c15ProbeNDecl int
+var c15ProbeRan, c15ProbeStartupRan bool
+var errC15Stop = fmt.Errorf("c15probe: stop before listening")
+
+func c15ProbeInit() {
+	c15ProbeOnce.Do(func() {
+		old := os.Stdout
+		if devnull, err := os.OpenFile(os.DevNull, os.O_WRONLY, 0); err == nil {
+			os.Stdout = devnull
+			defer func() { os.Stdout = old; devnull.Close() }()
+		}
+		httpserver.RegisterDevDirective("c15probe", "")
+		casket.RegisterPlugin("c15probe", casket.Plugin{ServerType: "http", Action: func(c *casket.Controller) error {
+			for c.Next() {
+			}
+			if c15ProbeRan {
+				return nil
+			}
+			c15ProbeRan = true
+			c15ProbeCtx = c.Context()
+			c15ProbeObs, c15ProbeDirect = c15Observe(httpserver.VerifC15SiteConfigs(c15ProbeCtx), c15ProbeNDecl)
+			c.OnStartup(func() error { c15ProbeStartupRan = true; return errC15Stop })
+			return nil
+		}})
+	})
+}
+
+func c15RunPipe(in *c15In) Result { return c15RunPipeX(in, false) }
+
+// c15RunPipeX: real = false: the three pure stages of activateHTTPS through the hook (pipe cases);
+// real = true (act cases): the same declared sites as Casketfile text through casket.Start, i.e. the
+// REAL activateHTTPS as the tls parsing callback and the real MakeServers; only configurations in
+// which no site needs a certificate obtained at startup (no ACME, no network) are run that way.
+func c15RunPipeX(in *c15In, real bool) Result {
 	c15Init()
 	sites := append([]c15Site(nil), in.Sites...)
 	for _, s := range sites {
@@ -358,7 +403,51 @@ func c15RunPipe(in *c15In) Result {
 	obsBTerm := "None"
 	var obsB []c15Obs
 	var msErr error
-	if runMS {
+	if real {
+		for _, o := range obsA[:len(sites)] {
+			if o.Managed && !o.OnDem {
+				return Result{Term: "CSkip", Obs: "a site needs a certificate obtained at startup (ACME): not run through casket.Start", Sig: "act:needs-acme", Class: "act:needs-acme"}
+			}
+		}
+		if !runMS {
+			return Result{Term: "CSkip", Obs: "a listener host would need DNS", Sig: "act:needs-dns", Class: "act:needs-dns"}
+		}
+		c15ProbeInit()
+		var sb strings.Builder
+		for i, s := range sites {
+			extra := ""
+			if i == 0 {
+				extra = "  c15probe\n"
+			}
+			sb.WriteString(c15BlockX(s, extra))
+		}
+		c15ProbeRan, c15ProbeStartupRan, c15ProbeCtx, c15ProbeObs, c15ProbeDirect, c15ProbeNDecl = false, false, nil, nil, "", len(sites)
+		inst, serr := casket.Start(casket.CasketfileInput{Contents: []byte(sb.String()), Filepath: "Testfile", ServerTypeName: "http"})
+		if serr == nil {
+			inst.Stop()
+			panic("c15 act: casket.Start went on to listen")
+		}
+		if !c15ProbeRan {
+			return Result{Term: "CSkip", Obs: "casket.Start failed before the probe: " + serr.Error(), Direct: "casket.Start rejects a configuration the stages accept: " + serr.Error(), Sig: "act:start-error", Class: "act:start-error"}
+		}
+		if len(c15ProbeObs) < len(sites) {
+			return Result{Term: "CSkip", Obs: "site count", Direct: fmt.Sprintf("casket.Start built %d sites for %d declared", len(c15ProbeObs), len(sites)), Sig: "act:count", Class: "act:count"}
+		}
+		obsA, direct = c15ProbeObs, c15ProbeDirect
+		if serr != errC15Stop && c15ProbeStartupRan {
+			panic("c15 act: unexpected error after startup callback: " + serr.Error())
+		}
+		if !c15ProbeStartupRan {
+			msErr = serr // MakeServers' configuration error (after the per-site loop)
+		}
+		var d2 string
+		obsB, d2 = c15Observe(httpserver.VerifC15SiteConfigs(c15ProbeCtx), len(sites))
+		if direct == "" {
+			direct = d2
+		}
+		obsBTerm = cApp("Some", c15SitesTerm(obsB))
+		cfgs = httpserver.VerifC15SiteConfigs(c15ProbeCtx)
+	} else if runMS {
 		// configuration errors of MakeServers (e.g. TLS and non-TLS sites on one listener) come after
 		// the per-site loop and the default-port pass, which is all this property observes
 		_, msErr = ctx.MakeServers()
@@ -380,6 +469,8 @@ func c15RunPipe(in *c15In) Result {
 	cls := fmt.Sprintf("pipe:sites%d:redir%d", len(sites), nsyn)
 	if sig != "pipe" {
 		cls = sig
+	} else if real {
+		sig, cls = "act", fmt.Sprintf("act:sites%d:redir%d", len(sites), nsyn)
 	}
 	return Result{Term: cApp("CPipe", cList(ds), c15SitesTerm(obsA), obsBTerm),
 		Obs:        map[string]interface{}{"after_callback": obsA, "after_MakeServers": obsB, "MakeServers_error": fmt.Sprint(msErr)},
@@ -465,11 +556,18 @@ func c15RunRedirE2E(in *c15In) Result {
 	}
 	cfgs = httpserver.VerifC15MakePlaintextRedirects(cfgs)
 	httpserver.VerifC15SetSiteConfigs(ctx, cfgs)
-	if len(cfgs) != ndecl+1 {
+	if len(cfgs) < ndecl+1 {
 		return skip(fmt.Sprintf("%d sites synthesised", len(cfgs)-ndecl), "no-single-redirect", "")
 	}
 	obs, direct := c15Observe(cfgs, ndecl)
 	rport := *obs[ndecl].Redir
+	// several HTTPS sites of one host (declared with different paths) each get a redirect site: they
+	// must all name the same host and redirect to the same port, otherwise the case is not judged
+	for _, o := range obs[ndecl+1:] {
+		if o.Host != obs[ndecl].Host || *o.Redir != rport {
+			return skip(fmt.Sprintf("%d different sites synthesised", len(cfgs)-ndecl), "no-single-redirect", "")
+		}
+	}
 	servers, err := ctx.MakeServers()
 	if err != nil {
 		return skip("MakeServers: "+err.Error(), "config-error", "")
@@ -565,6 +663,15 @@ func c15RunRedirE2E(in *c15In) Result {
 	if strings.HasPrefix(in.Host, "[") {
 		sig = "redire2e:bracketed-ipv6-host"
 	}
+	withPath := false
+	for _, s := range in.Sites {
+		if s.Path != "" {
+			withPath = true
+		}
+	}
+	if withPath && sig == "redire2e" {
+		sig = "redire2e:https-site-declared-with-path"
+	}
 	hostSent := in.Host
 	if in.NoHost {
 		hostSent = ""
@@ -600,6 +707,8 @@ func c15Run(in0 interface{}) Result {
 	switch in.Kind {
 	case "pipe":
 		return c15RunPipe(in)
+	case "act":
+		return c15RunPipeX(in, true)
 	case "redir":
 		return c15RunRedir(in)
 	case "redire2e":
@@ -756,10 +865,14 @@ func c15GenSite(r *Rand, pool []string) c15Site {
 func c15Gen(r *Rand, tier string) []interface{} {
 	var out []interface{}
 	nPipe, nRedir, nClassRand, nIPRand, splitLen := 2600, 900, 500, 900, 5
-	nE2E, tokLen, tokAlpha, binLen := 260, 5, []string{"", "1", "fc00", "10.0.0.1"}, 8
+	nAct := 300
+	if tier == "thorough" {
+		nAct = 3000
+	}
+	nE2E, tokLen, tokAlpha, binLen := 416, 5, []string{"", "1", "fc00", "10.0.0.1"}, 8
 	if tier == "thorough" {
 		nPipe, nRedir, nClassRand, nIPRand, splitLen = 30000, 9000, 5000, 9000, 7
-		nE2E, tokLen, tokAlpha, binLen = 3200, 6, []string{"", "1", "fc00", "10.0.0.1", "0", "ffff"}, 11
+		nE2E, tokLen, tokAlpha, binLen = 4000, 6, []string{"", "1", "fc00", "10.0.0.1", "0", "ffff"}, 11
 	}
 	// ---- pipeline: single sites over every host class, then site sets with shared hosts
 	for _, h := range c15SiteHosts {
@@ -796,6 +909,53 @@ func c15Gen(r *Rand, tier string) []interface{} {
 		}
 		out = append(out, in)
 	}
+	// ---- the REAL activateHTTPS (through casket.Start): configurations in which every TLS site brings
+	// its own certificate, is self-signed, loads from a directory, is on-demand, or does not qualify —
+	// nothing is obtained at startup, so it runs offline; some with one unrelated plain/internal site
+	actTLS := func() *c15TLS {
+		switch k := r.Intn(100); {
+		case k < 35:
+			return &c15TLS{Arg: "a2", NoRedirect: r.Chance(12), OnDemand: r.Chance(10)}
+		case k < 60:
+			return &c15TLS{Arg: "a1", Val: "self_signed", NoRedirect: r.Chance(12)}
+		case k < 72:
+			return &c15TLS{Arg: "a0", Load: true, NoRedirect: r.Chance(12)}
+		case k < 84:
+			return &c15TLS{Arg: "a0", OnDemand: true, NoRedirect: r.Chance(12)}
+		case k < 92:
+			return &c15TLS{Arg: "a1", Val: "foo@example.com", OnDemand: true}
+		case k < 96:
+			return &c15TLS{Arg: "a1", Val: "off"}
+		}
+		return nil
+	}
+	actHosts := []string{"example.com", "example.com", "www.example.org", "a.example.net", "b.example.net", "*.example.com", "shop.example.com"}
+	plainHosts := []string{"localhost", "127.0.0.1", "10.0.0.1", "b.local", "a.test", "[::1]", ""}
+	for i := 0; i < nAct; i++ {
+		in := &c15In{Kind: "act"}
+		for j := r.Range(1, 4); j > 0; j-- {
+			s := c15Site{Host: r.Pick(actHosts), Port: r.Pick([]string{"", "", "443", "443", "8443", "444", "https"}), TLS: actTLS()}
+			if r.Chance(15) {
+				s.Scheme = "https"
+			}
+			if r.Chance(15) {
+				s.Path = r.Pick([]string{"/a", "/b", "/a/b"})
+			}
+			if s.TLS == nil {
+				// without a tls directive a public name would be managed: declare it plain HTTP or take a host that does not qualify
+				if r.Bool() {
+					s.Scheme, s.Port = "http", r.Pick([]string{"", "80", "8080"})
+				} else {
+					s.Host, s.Port = r.Pick(plainHosts), r.Pick([]string{"8080", "80", "2015", "443"})
+				}
+			}
+			in.Sites = append(in.Sites, s)
+		}
+		if r.Chance(30) {
+			in.Sites = append(in.Sites, c15Site{Host: r.Pick(plainHosts), Port: r.Pick([]string{"8080", "80", "2015"}), Bind: r.Pick([]string{"", "", "127.0.0.1", "10.0.0.5"})})
+		}
+		out = append(out, in)
+	}
 	// ---- redirect handler
 	rports := []string{"", "", "8443", "444", "2015", "65535", "4430"}
 	hosts := []string{"example.com", "example.com:80", "EXAMPLE.com:8080", "www.example.org:", "a.b.c", "1.2.3.4", "1.2.3.4:80", "localhost:80",
@@ -828,6 +988,7 @@ func c15Gen(r *Rand, tier string) []interface{} {
 		sites []c15Site
 		hosts []string // Host header values that select the redirect site
 		any   bool     // catch-all: every Host value (and none) reaches it
+		paths []string // the paths the HTTPS sites are declared with (request targets below and outside them)
 	}
 	e2eCfgs := []e2eCfg{
 		{sites: []c15Site{{Host: "example.com", Port: "443", TLS: manual}}, hosts: []string{"example.com", "example.com:80", "EXAMPLE.com", "Example.COM:8080", "example.com:"}},
@@ -840,6 +1001,13 @@ func c15Gen(r *Rand, tier string) []interface{} {
 		{sites: []c15Site{{Host: "127.0.0.1", Port: "8443", TLS: manual}}, hosts: []string{"127.0.0.1", "127.0.0.1:80"}},
 		{sites: []c15Site{{Host: "", Port: "8443", TLS: manual}}, any: true},
 		{sites: []c15Site{{Host: "", Port: "443", TLS: manual}}, any: true},
+		// HTTPS sites declared WITH a path: the redirect site answers for the whole host, URI unchanged
+		{sites: []c15Site{{Host: "example.com", Port: "443", Path: "/blog", TLS: manual}}, hosts: []string{"example.com", "example.com:80", "EXAMPLE.com"}, paths: []string{"/blog", "/blog/", "/blo", "/blogs"}},
+		{sites: []c15Site{{Host: "example.com", Port: "8443", Path: "/v2/", TLS: manual}}, hosts: []string{"example.com", "example.com:80"}, paths: []string{"/v2", "/v2/", "/v1"}},
+		{sites: []c15Site{{Host: "example.com", Port: "443", Path: "/blog", TLS: manual}, {Host: "example.com", Port: "443", Path: "/docs", TLS: &c15TLS{Arg: "a1", Val: "self_signed"}}}, hosts: []string{"example.com", "example.com:80"}, paths: []string{"/blog", "/docs", "/docs/", "/other"}},
+		{sites: []c15Site{{Host: "example.com", Port: "443", Path: "/a/b", TLS: manual}, {Host: "example.com", Port: "443", Path: "/a", TLS: manual}, {Host: "example.com", Port: "443", Path: "/c", TLS: manual}}, hosts: []string{"example.com", "example.com:80"}, paths: []string{"/a", "/a/b", "/a/b/", "/c", "/ab"}},
+		{sites: []c15Site{{Host: "a.example.net", Port: "9443", Path: "/app", TLS: manual}, {Host: "other.example", Port: "80"}}, hosts: []string{"a.example.net", "a.example.net:80"}, paths: []string{"/app", "/app/x"}},
+		{sites: []c15Site{{Host: "", Port: "8443", Path: "/app", TLS: manual}}, any: true, paths: []string{"/app", "/app/", "/apps"}},
 	}
 	for i := 0; i < nE2E; i++ {
 		cfg := e2eCfgs[i%len(e2eCfgs)]
@@ -868,6 +1036,12 @@ func c15Gen(r *Rand, tier string) []interface{} {
 				t += "/"
 			}
 			in.Target = t + r.Pick(queries)
+			if len(cfg.paths) > 0 && r.Chance(65) {
+				in.Target = r.Pick(cfg.paths) + in.Target
+				if r.Chance(15) {
+					in.Target = r.Pick(cfg.paths) + r.Pick(queries)
+				}
+			}
 		}
 		out = append(out, in)
 	}
@@ -1021,7 +1195,7 @@ func c15Gen(r *Rand, tier string) []interface{} {
 func init() {
 	register(&Property{
 		ID: "C15", Imports: "V.Lib V.C15_Model", Judge: "judge", Shard: 500,
-		Rule: "redire2e = declared TLS sites through all real stages incl. MakeServers, the resulting HTTP-port server served on a loopback listener, one raw request over TCP, raw response observed (status, Location, Connection, connection closed); net = IPNet.Contains of the four private networks on net.ParseIP; ip also exhaustive over ':'-joined token sequences; pipe cases = Casketfile text through the real parser, InspectServerBlocks, bind/tls setups, the three pure stages of activateHTTPS and MakeServers, synthesised sites probed; redir = real redirect middleware on ReadRequest-parsed requests; class/ip/split = real classifiers and stdlib functions. non-trivial: pipe with at least one TLS-enabled or managed site, redir with a response, class with a positive classification, ip/split that parse; distinct = distinct Coq case term",
+		Rule: "act = the same declared sites as Casketfile text through casket.Start (REAL activateHTTPS as the tls parsing callback, real MakeServers; a probe directive records the site list and aborts before listening), only configurations where no certificate is obtained at startup; redire2e includes HTTPS sites declared with a path (several per host), targets below and outside the paths; redire2e = declared TLS sites through all real stages incl. MakeServers, the resulting HTTP-port server served on a loopback listener, one raw request over TCP, raw response observed (status, Location, Connection, connection closed); net = IPNet.Contains of the four private networks on net.ParseIP; ip also exhaustive over ':'-joined token sequences; pipe cases = Casketfile text through the real parser, InspectServerBlocks, bind/tls setups, the three pure stages of activateHTTPS and MakeServers, synthesised sites probed; redir = real redirect middleware on ReadRequest-parsed requests; class/ip/split = real classifiers and stdlib functions. non-trivial: pipe with at least one TLS-enabled or managed site, redir with a response, class with a positive classification, ip/split that parse; distinct = distinct Coq case term",
 		Gen: c15Gen,
 		Decode: func(raw json.RawMessage) (interface{}, error) {
 			in := &c15In{}
